@@ -330,12 +330,18 @@ func stage(res world.TxResult) string {
 
 // quorum: every validator votes for the claim (ov over defaults), then the
 // skyway end-blocker tallies. bodies[i] overrides the claim of validator i.
-func (e *env) quorum(base sdk.Context, t *claimT, bodies []map[string]interface{}) (outcome, sdk.Context, []string) {
+// body is the claim one validator votes for.
+type body struct {
+	T  *claimT
+	Ov map[string]interface{}
+}
+
+func (e *env) quorum(base sdk.Context, bodies []body) (outcome, sdk.Context, []string) {
 	ctx := world.Fork(base)
 	var o outcome
 	var errs []string
 	for i, v := range e.w.Vals {
-		msg := e.build(t, bodies[i], v)
+		msg := e.build(bodies[i].T, bodies[i].Ov, v)
 		before, _ := e.attestations(ctx)
 		res := e.w.DeliverTx(ctx, []*world.Actor{v.Actor}, msg)
 		o.Votes = append(o.Votes, stage(res))
@@ -357,10 +363,10 @@ func (e *env) quorum(base sdk.Context, t *claimT, bodies []map[string]interface{
 	return o, ctx, errs
 }
 
-func same(ov map[string]interface{}, n int) []map[string]interface{} {
-	out := make([]map[string]interface{}, n)
+func same(t *claimT, ov map[string]interface{}, n int) []body {
+	out := make([]body, n)
 	for i := range out {
-		out[i] = ov
+		out[i] = body{t, ov}
 	}
 	return out
 }
@@ -484,6 +490,7 @@ type caseT struct {
 	ID     string
 	Base   int
 	T      *claimT
+	T2     *claimT // type of c2 when it differs from that of c1 (cross-type collision)
 	Sig    string
 	Fields string
 	C1, C2 map[string]interface{}
@@ -582,9 +589,12 @@ func (e *env) runCase(c caseT) {
 	r := e.r
 	base := e.bases[c.Base]
 	n := len(e.w.Vals)
-	o1, _, err1 := e.quorum(base.Ctx, c.T, same(c.C1, n))
-	o2, _, err2 := e.quorum(base.Ctx, c.T, same(c.C2, n))
-	m1, m2 := e.build(c.T, c.C1, e.w.Vals[0]), e.build(c.T, c.C2, e.w.Vals[0])
+	if c.T2 == nil {
+		c.T2 = c.T
+	}
+	o1, _, err1 := e.quorum(base.Ctx, same(c.T, c.C1, n))
+	o2, _, err2 := e.quorum(base.Ctx, same(c.T2, c.C2, n))
+	m1, m2 := e.build(c.T, c.C1, e.w.Vals[0]), e.build(c.T2, c.C2, e.w.Vals[0])
 	if c.Show1 == "" {
 		c.Show1, c.Show2 = showOv(c.C1), showOv(c.C2)
 	}
@@ -617,9 +627,9 @@ func (e *env) runCase(c caseT) {
 	}
 	// confirmation on the real handlers: the first validator submits the body
 	// c2, the others vote for c1.
-	bodies := same(c.C1, n)
-	bodies[0] = c.C2
-	om, mctx, errm := e.quorum(base.Ctx, c.T, bodies)
+	bodies := same(c.T, c.C1, n)
+	bodies[0] = body{c.T2, c.C2}
+	om, mctx, errm := e.quorum(base.Ctx, bodies)
 	recs, votes := e.attestations(mctx)
 	recs0, _ := e.attestations(base.Ctx)
 	var what string
@@ -633,13 +643,17 @@ func (e *env) runCase(c caseT) {
 	}
 	j1, _ := json.Marshal(m1)
 	j2, _ := json.Marshal(m2)
-	msg := fmt.Sprintf("base state %q, %s: c1 {%s} and c2 {%s} (all other fields equal) have the same attestation key %x but different effect:\n"+
+	tn, rest := c.T.Name, "all other fields equal"
+	if c.T2 != c.T {
+		tn, rest = c.T.Name+" c1 / "+c.T2.Name+" c2", "fields not shown have the default (valid) value of their type; full claims in the replay file"
+	}
+	msg := fmt.Sprintf("base state %q, %s: c1 {%s} and c2 {%s} (%s) have the same attestation key %x but different effect:\n"+
 		"unanimous c1: votes %v state %s %v\nunanimous c2: votes %v state %s %v\nstores that differ: %v\n"+
 		"mixed run (v0 submits c2 first, v1 and v2 vote c1): votes %v, %d new attestation record(s) with %v votes, state %s %v: %s",
-		base.Name, c.T.Name, c.Show1, c.Show2, k1,
+		base.Name, tn, c.Show1, c.Show2, rest, k1,
 		o1.Votes, o1.Digest, brief(err1), o2.Votes, o2.Digest, brief(err2), differing(o1, o2),
 		om.Votes, recs-recs0, votes, om.Digest, brief(errm), what)
-	r.Violate(c.Sig, msg, map[string]interface{}{"case": c.ID, "base": base.Name, "type": c.T.URL, "c1": json.RawMessage(j1), "c2": json.RawMessage(j2)})
+	r.Violate(c.Sig, msg, map[string]interface{}{"case": c.ID, "base": base.Name, "type": c.T.URL, "type2": c.T2.URL, "c1": json.RawMessage(j1), "c2": json.RawMessage(j2)})
 }
 
 func brief(errs []string) string {
@@ -663,7 +677,7 @@ func (e *env) nonVacuous() {
 	unroutable := []string{}
 	defer func() { e.r.Extra["claim_types_without_msg_route"] = unroutable }()
 	for _, t := range e.types {
-		_, ctx, errs := e.quorum(full.Ctx, t, same(nil, n))
+		_, ctx, errs := e.quorum(full.Ctx, same(t, nil, n))
 		var ok bool
 		var what string
 		switch t.Name {
@@ -709,6 +723,7 @@ func run(r *report.Run, shard, nshards int, replayFile string) {
 		"a field for which no pair changes the outcome in any base state may be absent from the hash (EventNonce is never read by the module; SkywayNonce is the nonce used)",
 		"value domains are keyed by field name (valid values incl. strings containing '/'); unknown fields get a generic domain by kind; a field of an unsupported kind or an unknown claim type makes the run non-exhaustive",
 		"collision search alphabet: free-form string fields (those whose ValidateBasic accepts a '/') take {valid, 2nd valid, \"\", a/b, .., ../valid, ./valid, valid/.., %2F, a%2Fb, mixed-case valid} (thorough: 16 tokens), other strings and numeric fields 2 values (thorough: strings 3); fields to which the key does not react on single-field variation (EventNonce) are held at their default, their omission is judged by the single-field stage",
+		"cross-type pass: free-form string fields of all types draw from one pool (valid values of all string fields of all claim types + decimal renderings of numeric defaults; thorough: + second valid values); one free-form field at a time takes the composites x/y (x raw and url.PathEscape'd) over that pool; fields that enter the key outside ClaimHash (ChainReferenceId), validated strings and numeric fields take 2 values; all tuples of all types share one key map; groups are evaluated closest-to-valid first within a budget (cap reported)",
 		"thorough tier: separator-shift pairs over every ordered pair / triple of string (and numeric middle) fields, reported under signature prefix sepshift:",
 	}
 	if shard == 0 {
@@ -746,7 +761,7 @@ func run(r *report.Run, shard, nshards int, replayFile string) {
 		cases = e.cases(true)
 	}
 	for i, c := range cases {
-		if strings.HasPrefix(want, "collision|") {
+		if strings.HasPrefix(want, "collision|") || strings.HasPrefix(want, "xcollision|") {
 			break
 		}
 		if want != "" {
@@ -763,10 +778,11 @@ func run(r *report.Run, shard, nshards int, replayFile string) {
 		e.runCase(c)
 	}
 	e.collisionSearch(shard, nshards, deadline, want)
+	e.crossTypeSearch(shard, nshards, deadline, want)
 	var ne, nf, nk float64
 	for k, v := range e.effects {
 		ne += float64(v)
-		if !strings.HasPrefix(k, "sepshift:") && !strings.HasPrefix(k, "collision:") {
+		if !strings.HasPrefix(k, "sepshift:") && !strings.Contains(k, "collision:") {
 			r.Extra["pairs_outcome_differs."+k] = float64(v)
 		}
 	}
